@@ -755,6 +755,10 @@ class SymSet:
         p.assume(z3.Implies(z3.And(u.n > 0, card == 1),
                             z3.And(z3.Implies(samee, z3.And(c2 == 1, e2 == elem)), z3.Implies(z3.Not(samee), c2 >= 2))))
         p.assume(z3.Implies(card >= 2, c2 >= 2))
+        # consequences of the clauses above, spelled out in directly usable form
+        p.assume(z3.Implies(c2 == 1, spec.forall(0, u.n, lambda k: u.at(k) == e2)))
+        p.assume(z3.Implies(z3.And(c2 == 1, card == 1), e2 == elem))
+        p.assume(z3.Implies(c2 == 0, z3.And(u.n == 0, card == 0)))
         self.card, self.elem = c2, e2
         return None
 
